@@ -56,7 +56,10 @@ impl Line {
         }
         let mut s: String = self.tokens.iter().map(|s| s.to_string()).collect();
         while let Some((col, num)) = visitor.replace.pop() {
-            s.replace_range(col, &format!("{}", num));
+            // Columns count characters; replace_range needs byte offsets.
+            let start = s.char_indices().nth(col.start).map_or(s.len(), |(i, _)| i);
+            let end = s.char_indices().nth(col.end).map_or(s.len(), |(i, _)| i);
+            s.replace_range(start..end, &format!("{}", num));
         }
         let (_, tokens) = lex(&s);
         Line { number, tokens }
